@@ -78,6 +78,23 @@ func main() {
 		for _, v := range r.KnownInfos() {
 			fmt.Printf("   known %s (%s) model=%v\n", v.KnownID, v.Label, v.Model)
 		}
+		if *verbose || os.Getenv("GOSYM_FORKS") != "" {
+			type kv struct {
+				k string
+				v int
+			}
+			var fk []kv
+			for k, v := range r.ForkTags {
+				fk = append(fk, kv{k, v})
+			}
+			sort.Slice(fk, func(i, j int) bool { return fk[i].v > fk[j].v })
+			for i, x := range fk {
+				if i >= 25 {
+					break
+				}
+				fmt.Printf("   forks %6d at %s\n", x.v, x.k)
+			}
+		}
 		var reached []string
 		for k := range r.Reached {
 			reached = append(reached, k)
